@@ -5,6 +5,8 @@ base = json.load(open("/root/.vp/BASELINE.json"))
 out = tempfile.mktemp(suffix=".xml")
 env = {k: v for k, v in os.environ.items() if k != "AMPFORM_VERIF"}
 repo = os.environ.get("VERIF_REPO", "/repo")
+if repo != "/repo":
+    env["PYTHONPATH"] = repo + "/src"  # /venv has an editable install of /repo/src: a scratch copy must come first
 subprocess.run(["/venv/bin/python", "-m", "pytest", "-ra", "-q", "-p", "no:cacheprovider", "--timeout=900",
                 "--continue-on-collection-errors", f"--junitxml={out}"], cwd=repo, env=env,
                stdout=subprocess.DEVNULL, stderr=subprocess.DEVNULL)
